@@ -1,9 +1,151 @@
-(** C14 — exported statements only. *)
+(** C14 — epochs tick once per elapsed duration with hooks in order.
+    This file holds only the exported statements (model: Model.v, vocabulary: Spec.v). *)
 From Coq Require Import ZArith List Bool Arith.
 Import ListNotations.
-Require Import Nib.C14.Model Nib.C14.Spec Nib.C14.Proofs.
+Require Import Nib.C14.Model Nib.C14.Spec Nib.C14.Check Nib.C14.Proofs.
 Local Open Scope Z_scope.
 
+(** THE PROPERTY, block by block, along every history: for every sequence of BeginBlocker runs and
+    AddEpochInfo calls with non-decreasing context times and well-formed definitions, starting from any
+    well-formed state, every block satisfies [P_block]: per identifier the epoch number stays or advances by
+    exactly one; it advances iff (not counting and start time reached) or (counting and block time >= current
+    start + duration); on an advance the recorded start time / height are the block's and the hook calls for
+    the identifier are exactly [AfterEpochEnd n (omitted on the first tick); BeforeEpochStart (n+1)]; without
+    an advance the info is unchanged and no hook is called; no hook is called for unknown identifiers. *)
+Theorem C14_every_block_of_every_history :
+  forall (ops : list op) (now : Z) (s : state),
+    Inv now s -> ops_ok now ops -> P_trace s (combine ops (snd (run s ops))).
+Proof. exact trace_satisfies_property. Qed.
+Print Assumptions C14_every_block_of_every_history.
+
+(** The epoch number of an identifier never decreases over a history (any times, also decreasing ones);
+    identifier, start time and duration never change. Needs only: an epoch that is not counting has number <= 1. *)
+Theorem C14_monotone :
+  forall (ops : list op) (s : state) (i : nat) (e : einfo),
+    Forall cur_ok s -> Forall add_cur_ok ops -> lookup i s = Some e ->
+    exists e', lookup i (fst (run s ops)) = Some e' /\ e_cur e <= e_cur e' /\
+               e_id e' = e_id e /\ e_start e' = e_start e /\ e_dur e' = e_dur e /\
+               (e_started e = true -> e_started e' = true).
+Proof. exact epoch_number_monotone. Qed.
+Print Assumptions C14_monotone.
+
+(** The code's advance condition, exactly, without any hypothesis. *)
+Theorem C14_tick_condition_exact :
+  forall (e : einfo) (t : Z),
+    should_tick e t = true <-> e_start e <= t /\ (e_started e = false \/ e_cur_start e + e_dur e <= t).
+Proof. exact should_tick_exact. Qed.
+Print Assumptions C14_tick_condition_exact.
+
+(** Advance by exactly one iff the property's condition, for a well-formed info when the clock did not go
+    back (or the duration is non-negative). *)
+Theorem C14_tick_iff :
+  forall (now t h : Z) (e : einfo),
+    wf_info now e -> (now <= t \/ 0 <= e_dur e) ->
+    (e_cur (fst (step_info t h e)) = e_cur e + 1 <-> cond e t).
+Proof. exact tick_iff_cond. Qed.
+Print Assumptions C14_tick_iff.
+
+(** At most one advance and at most one pair of hook calls per identifier per block, however long the stall. *)
+Theorem C14_at_most_one_per_block :
+  forall (s : state) (t h : Z) (i : nat) (e : einfo),
+    NoDup (ids s) -> lookup i s = Some e -> (e_started e = false -> e_cur e = 0) ->
+    exists e', lookup i (fst (begin_block s t h)) = Some e' /\
+      ((e' = e /\ proj i (snd (begin_block s t h)) = []) \/
+       (e_cur e' = e_cur e + 1 /\ proj i (snd (begin_block s t h)) = tick_hooks e)).
+Proof. exact at_most_one_per_block. Qed.
+Print Assumptions C14_at_most_one_per_block.
+
+(** Over a whole history (no assumption on times or counters): the hook calls of an identifier are exactly
+    the consecutive pairs AfterEpochEnd n; BeforeEpochStart (n+1) from its first to its last epoch number, in
+    this order, preceded by a lone BeforeEpochStart 1 when counting started inside the history. *)
+Theorem C14_hooks_exactly_once_in_order :
+  forall (ops : list op) (s : state) (i : nat) (e : einfo),
+    NoDup (ids s) -> lookup i s = Some e ->
+    exists e', lookup i (fst (run s ops)) = Some e' /\
+               proj i (all_hooks (snd (run s ops))) = expected e e'.
+Proof. exact hooks_closed_form. Qed.
+Print Assumptions C14_hooks_exactly_once_in_order.
+
+(** … as counts: AfterEpochEnd(n) exactly once for each epoch number left, BeforeEpochStart(n) exactly once
+    for each number entered, zero times otherwise. *)
+Theorem C14_hooks_exactly_once_count :
+  forall (ops : list op) (s : state) (i : nat) (e : einfo),
+    NoDup (ids s) -> lookup i s = Some e -> e_started e = true ->
+    exists e', lookup i (fst (run s ops)) = Some e' /\ e_cur e <= e_cur e' /\
+      (forall n, count_occ hook_eq_dec (proj i (all_hooks (snd (run s ops)))) (AfterEnd i n) =
+                 if (e_cur e <=? n) && (n <? e_cur e') then 1%nat else 0%nat) /\
+      (forall n, count_occ hook_eq_dec (proj i (all_hooks (snd (run s ops)))) (BeforeStart i n) =
+                 if (e_cur e + 1 <=? n) && (n <=? e_cur e') then 1%nat else 0%nat).
+Proof. exact hooks_exactly_once. Qed.
+Print Assumptions C14_hooks_exactly_once_count.
+
+(** An identifier that is not defined receives no hook call. *)
+Theorem C14_no_hooks_for_absent_id :
+  forall (s : state) (t h : Z) (i : nat), lookup i s = None -> proj i (snd (begin_block s t h)) = [].
+Proof. exact no_hooks_for_absent_id. Qed.
+Print Assumptions C14_no_hooks_for_absent_id.
+
+(** The recorded start time and height of a new epoch are the advancing block's. *)
+Theorem C14_start_is_block :
+  forall (t h : Z) (e : einfo),
+    should_tick e t = true ->
+    e_cur_start (fst (step_info t h e)) = t /\ e_height (fst (step_info t h e)) = h /\
+    e_started (fst (step_info t h e)) = true.
+Proof. exact start_is_block. Qed.
+Print Assumptions C14_start_is_block.
+
+(** Equal consecutive times: no second advance (positive duration). *)
+Theorem C14_equal_time_no_second_tick :
+  forall (t h h' : Z) (e : einfo),
+    0 < e_dur e -> should_tick e t = true ->
+    step_info t h' (fst (step_info t h e)) = (fst (step_info t h e), []).
+Proof. exact equal_time_no_second_tick. Qed.
+Print Assumptions C14_equal_time_no_second_tick.
+
+(** A block time before the current epoch's end — including a clock that went back — changes nothing. *)
+Theorem C14_earlier_time_no_tick :
+  forall (t h : Z) (e : einfo),
+    e_started e = true -> t < e_cur_start e + e_dur e -> step_info t h e = (e, []).
+Proof. exact earlier_time_no_tick. Qed.
+Print Assumptions C14_earlier_time_no_tick.
+
+(** A stall of k+1 durations is a single advance; the new epoch starts at the block's time (no catching up). *)
+Theorem C14_stall_is_one_tick :
+  forall (t h : Z) (e : einfo) (k : Z),
+    e_started e = true -> e_start e <= t -> 0 <= k -> e_cur_start e + (k + 1) * e_dur e <= t -> 0 <= e_dur e ->
+    e_cur (fst (step_info t h e)) = e_cur e + 1 /\ e_cur_start (fst (step_info t h e)) = t.
+Proof. exact stall_is_one_tick. Qed.
+Print Assumptions C14_stall_is_one_tick.
+
+(** Durations: Validate rejects only 0; a negative duration makes the epoch advance in every block. *)
+Theorem C14_nonpositive_duration_ticks_every_block :
+  forall (t : Z) (e : einfo),
+    e_started e = true -> e_dur e <= 0 -> e_start e <= t -> e_cur_start e <= t -> should_tick e t = true.
+Proof. exact nonpositive_duration_ticks_every_block. Qed.
+Print Assumptions C14_nonpositive_duration_ticks_every_block.
+
+(** Outside well-formedness (AddEpochInfo / genesis validation accept such infos) the statement fails:
+    a not-counting info with a non-zero epoch number goes back to 1 … *)
+Theorem C14_monotone_refuted_for_unstarted_nonzero_epoch :
+  exists e t h, e_started e = false /\ e_cur (fst (step_info t h e)) < e_cur e.
+Proof. exact monotone_refuted_for_unstarted_nonzero_epoch. Qed.
+Print Assumptions C14_monotone_refuted_for_unstarted_nonzero_epoch.
+
+(** … and a counting info whose StartTime lies after its current start does not advance although its
+    duration has elapsed. *)
+Theorem C14_tick_iff_refuted_for_started_before_start_time :
+  exists e t h, e_started e = true /\ cond e t /\ step_info t h e = (e, []).
+Proof. exact tick_iff_refuted_for_started_before_start_time. Qed.
+Print Assumptions C14_tick_iff_refuted_for_started_before_start_time.
+
+(** The boolean checker evaluated on implementation traces is sound for the property … *)
 Theorem C14_checker_sound : forall s tr, Pb_trace s tr = true -> P_trace s tr.
 Proof. intros s tr. exact (Pb_trace_sound tr s). Qed.
 Print Assumptions C14_checker_sound.
+
+(** … and it is evaluated exactly on traces inside the hypotheses of the main theorem. *)
+Theorem C14_check_precondition_sound :
+  forall c : case, pre c = true -> NoDup (ids (c_init c)) ->
+    Inv (first_time (map fst (c_tr c))) (c_init c) /\ ops_ok (first_time (map fst (c_tr c))) (map fst (c_tr c)).
+Proof. exact pre_sound. Qed.
+Print Assumptions C14_check_precondition_sound.
